@@ -7,7 +7,7 @@ patch="$1"; shift
 cd /repo || exit 2
 if ! git diff --quiet; then echo "/repo is dirty"; exit 2; fi
 git apply "$patch" || { echo "patch does not apply"; exit 2; }
-trap 'git -C /repo checkout -- . ; find /repo/opfython -name "*.nbi" -newer /verif/MANIFEST.json -delete 2>/dev/null' EXIT
+trap 'git -C /repo checkout -- . ; /venv/bin/python /verif/tools/translate.py >/dev/null 2>&1; find /repo/opfython -name "*.nbi" -newer /verif/MANIFEST.json -delete 2>/dev/null' EXIT
 cd /verif
 for p in "$@"; do
   out=$(./check "$p" 2>&1); rc=$?
